@@ -87,7 +87,11 @@ Qed.
 (* ------------------------------------------------------------------ what compile returns is good *)
 
 Definition fail_targets (o : op) (w : oid) (k : kind) : bool :=
-  match o with OpHardLink _ _ _ t => (w =? t) && is_hdr k | _ => false end.
+  match o with
+  | OpHardLink _ _ _ t => (w =? t) && is_hdr k
+  | OpWriteVL _ _ _ => (w =? 0) && is_gcol k     (* the roll-over flush of the current collection comes first *)
+  | _ => false
+  end.
 
 (* calls whose failure can leave bytes behind (orphan extents, or the reference-count message) *)
 Definition may_leave_bytes (o : op) : bool :=
@@ -96,6 +100,8 @@ Definition may_leave_bytes (o : op) : bool :=
   | OpMkContig _ _ _ _ _ _ => true       (* header too large for one chunk: detected after the data allocation *)
   | OpAttrSet _ None _ _ => negb ba
   | OpWrite _ _ => true                  (* zero-size chunk: Allocate fails after earlier chunks were written *)
+  | OpWriteVL _ _ _ => true              (* the same, after the elements went to the global heap *)
+  | OpMkDense _ _ _ _ _ => true          (* CreateDenseGroup links after writing everything, without a pre-check *)
   | _ => false
   end.
 
@@ -160,6 +166,25 @@ Proof.
   - intros F Hnil. apply app_eq_nil in Hnil. destruct Hnil as [Hnil _]. contradiction.
 Qed.
 
+(* the same for a creation path without a link pre-check (CreateDenseGroup) *)
+Lemma seq_link_good_lv : forall s p nl dup pre nb T Tf,
+  objs_ok (objs s) -> obj_ok nb ->
+  T p KHeap = true -> T p KSnod = true -> pre <> [] ->
+  cmds_ok cfgb Tf [] pre = true ->
+  (forall o k, Tf o k = true -> T o k = true) ->
+  good (objs s) T Tf true (seq_link pre (link_to_parent s p nl dup) nb).
+Proof.
+  intros s p nl dup pre nb T Tf Ho Hn H1 H2 Hne Hp HT.
+  destruct (link_to_parent s p nl dup) as [[lc lok] upd] eqn:E.
+  destruct (link_spec _ _ _ _ _ _ _ Ho E) as (A & B & C).
+  cbn [seq_link good]. repeat split.
+  - apply cmds_ok_app; [eapply cmds_ok_T_mono; eauto | apply C; auto].
+  - apply objs_ok_app; auto.
+  - intros F. rewrite (A F), app_nil_r. exact Hp.
+  - discriminate.
+  - intros F Hnil. apply app_eq_nil in Hnil. destruct Hnil as [Hnil _]. contradiction.
+Qed.
+
 (* creation targets: the new object, and the parent's heap and symbol node *)
 Lemma tgt_create_parent : forall x p k, is_heap_snod k = true -> ((p =? x) || ((p =? p) && is_heap_snod k)) = true.
 Proof. intros x p k H. rewrite N.eqb_refl, H. apply orb_true_r. Qed.
@@ -179,6 +204,53 @@ Proof.
   - destruct (n =? 0); [inversion H; subst; reflexivity|].
     destruct (chunk_cmds y r) as [c ok'] eqn:E. inversion H; subst.
     cbn [cmds_ok]. rewrite (IH _ _ _ eq_refl). reflexivity.
+Qed.
+
+(* every command of the global heap writer: a collection is allocated with the size it records, and flushed as a
+   whole buffer of that recorded size *)
+Lemma vl_walk_ok : forall T lens g fr, (forall sz, T 0 (KGCol sz) = true) ->
+  cmds_ok cfgb T fr (fst (vl_walk g lens)) = true.
+Proof.
+  intros T. induction lens as [|l r IH]; intros g fr HT; [reflexivity|].
+  cbn [vl_walk].
+  destruct (match g with None => true | Some (_, free) => free <? GHeap.obj_total l end).
+  - match goal with |- context [vl_walk (Some ?q) r] => pose proof (IH (Some q)) as IH'; destruct (vl_walk (Some q) r) as [c g'] end.
+    cbn [fst] in *. apply cmds_ok_app.
+    + destruct g as [[sz fr0]|]; [|reflexivity]. cbn [cmds_ok]. rewrite HT. cbn [orb andb].
+      unfold write_sized. cbn [sized]. rewrite N.add_0_l, N.leb_refl. reflexivity.
+    + cbn [cmds_ok]. unfold alloc_sized. cbn [sized]. rewrite N.eqb_refl. cbn [andb]. apply IH'. exact HT.
+  - apply IH. exact HT.
+Qed.
+
+Lemma vl_walk_none : forall lens g', vl_walk None lens = ([], g') -> g' = None.
+Proof.
+  intros [|l r] g' H; cbn [vl_walk] in H; [inversion H; reflexivity|].
+  match type of H with context [vl_walk (Some ?q) r] => destruct (vl_walk (Some q) r) end. discriminate.
+Qed.
+
+Lemma chunked_write_good : forall l y ob sizes T Tf,
+  objs_ok l -> obj_ok ob -> T y KHeader = true ->
+  good l T Tf true (chunked_write y ob sizes).
+Proof.
+  intros l y ob sizes T Tf Hl Hob HT. unfold chunked_write.
+  destruct (max_chunk_entries <? N.of_nat (List.length sizes)); [apply good_reject; auto|].
+  destruct (chunk_cmds y sizes) as [cc ok] eqn:Ec. destruct ok.
+  - cbn [good]. repeat split; auto; try discriminate.
+    apply cmds_ok_app; [eapply chunk_cmds_ok; eauto|].
+    cbn [cmds_ok]. rewrite HT. cbn [orb andb]. destruct Hob as (PA & _). rewrite (ws_patch _ PA). reflexivity.
+  - cbn [good]. repeat split; auto; try discriminate; try (intros _); eapply chunk_cmds_ok; eauto.
+Qed.
+
+Lemma dense_pre_ok : forall T x nlinks, nlinks <= bt2_maxrec ->
+  cmds_ok cfgb T []
+    [CAlloc x KFHeapHdr fh_hdr_size; CAlloc x KLinkHeapBlk lheap_blk_size;
+     CWrite x KFHeapHdr 0 fh_hdr_size; CWrite x KLinkHeapBlk 0 lheap_blk_size;
+     CAlloc x KBt2Leaf bt2_node; CWrite x KBt2Leaf 0 (leaf_size nlinks);
+     CAllocWrite x KBt2Hdr bt2_hdr_size;
+     CAlloc x KHeader (dense_hdr_alloc cfgb dense_msgs); CWrite x KHeader 0 (hdr_size dense_msgs)] = true.
+Proof.
+  intros T x nlinks Hn. cbn [cmds_ok memb existsb fst snd kind_eqb]. rewrite ?N.eqb_refl. cbn [andb orb].
+  rewrite (ws_leaf _ Hn). rewrite ?orb_true_r. reflexivity.
 Qed.
 
 Lemma with_msgs_ok : forall ob m n, obj_ok ob -> hdr_chunk m <= max_chunk -> n <= bt2_maxrec -> obj_ok (with_msgs ob m n).
@@ -307,8 +379,9 @@ Lemma compile_good : forall s o, objs_ok (objs s) -> conf s = cfgb ->
   good (objs s) (targets s o) (fail_targets o) (may_leave_bytes o) (compile s o).
 Proof.
   intros s o Ho Hcf. unfold compile. rewrite Hcf.
-  destruct (closed s); [apply good_reject; auto|].
-  destruct o as [p nl dup|p nl dup ldt rank dsize|p nl dup ldt rank hasmax lpipe|p nl dup mlen|y sizes|y|y idx alen hfit|y idx|p nl dup tgt| | |];
+  destruct (closed s) eqn:Ecl; [apply good_reject; auto|].
+  destruct o as [p nl dup|p nl dup ldt rank dsize|p nl dup ldt rank hasmax lpipe|p nl dup mlen|y sizes|y|y idx alen hfit|y idx|p nl dup tgt
+                |p nl dup nlinks fit|y lens sizes| | |];
     try (apply good_reject; auto; fail).
   - (* OpMkGroup *)
     destruct (negb (parent_known s p)); [apply good_reject; auto|].
@@ -369,13 +442,7 @@ Proof.
     + cbn [good targets cmds_ok]. rewrite N.eqb_refl. repeat split; auto; discriminate.
     + destruct (negb (session s =? 0)); [apply good_reject; auto|].
       destruct sizes as [|n0 sz]; [apply good_reject; auto|].
-      destruct (chunk_cmds y (n0 :: sz)) as [cc ok] eqn:Ec.
-      destruct ok.
-      * cbn [good]. repeat split; auto; try discriminate.
-        apply cmds_ok_app; [eapply chunk_cmds_ok; eauto|].
-        cbn [cmds_ok targets]. rewrite N.eqb_refl. cbn [orb andb].
-        destruct Hob as (PA & _). rewrite (ws_patch _ PA). reflexivity.
-      * cbn [good may_leave_bytes]. repeat split; auto; try discriminate; try (intros _); eapply chunk_cmds_ok; eauto.
+      cbn [may_leave_bytes]. apply chunked_write_good; auto. cbn [targets]. apply N.eqb_refl.
   - (* OpResize *)
     destruct (get_obj (objs s) y) as [ob|] eqn:Eg; [|apply good_reject; auto].
     pose proof (get_obj_ok _ _ _ Ho Eg) as Hob.
@@ -428,6 +495,45 @@ Proof.
       * eapply cmds_ok_T_mono; [exact HTT | apply Hw].
       * apply set_msgs_ok; auto.
       * intros _ Hb. rewrite (link_refused_spec _ _ _ _ _ _ _ Hcf Elr El eq_refl) in Hb. discriminate.
+  - (* OpMkDense *)
+    cbn [may_leave_bytes].
+    destruct ((nlinks =? 0) || negb (session s =? 0) || negb fit || (bt2_maxrec <? nlinks)) eqn:Ec; [apply good_reject; auto|].
+    apply orb_false_iff in Ec. destruct Ec as [_ Emax]. apply N.ltb_ge in Emax.
+    destruct (hdr_write (opidx s + 1) KHeader dense_msgs) as [w|] eqn:Ew; [|apply good_reject; auto].
+    destruct (hdr_write_spec _ _ _ _ Ew) as [-> Hc].
+    destruct (negb (parent_known s p)).
+    + cbn [good]. repeat split; auto; try discriminate; try (intros _); apply dense_pre_ok; exact Emax.
+    + apply seq_link_good_lv; auto.
+      * unfold obj_ok, new_obj; cbn [o_poff o_msgs o_nrec]. split; [arith | split; [exact Hc | arith]].
+      * cbn [targets]. apply tgt_create_parent; reflexivity.
+      * cbn [targets]. apply tgt_create_parent; reflexivity.
+      * discriminate.
+      * apply dense_pre_ok; exact Emax.
+      * apply ff_imp.
+  - (* OpWriteVL *)
+    cbn [may_leave_bytes]. unfold vl_compile. rewrite Ecl.
+    destruct (get_obj (objs s) y) as [ob|] eqn:Eg; [|apply good_reject; auto].
+    pose proof (get_obj_ok _ _ _ Ho Eg) as Hob.
+    destruct (vl_walk (gh s) lens) as [hc g'] eqn:Ev.
+    assert (Hhc : forall T fr, (forall sz, T 0 (KGCol sz) = true) -> cmds_ok cfgb T fr hc = true).
+    { intros T fr HT. pose proof (vl_walk_ok T lens (gh s) fr HT) as A. rewrite Ev in A. exact A. }
+    assert (HT1 : forall sz, targets s (OpWriteVL y lens sizes) 0 (KGCol sz) = true)
+      by (intros sz; cbn [targets is_gcol]; rewrite N.eqb_refl; apply orb_true_r).
+    assert (HT2 : forall sz, fail_targets (OpWriteVL y lens sizes) 0 (KGCol sz) = true) by (intros sz; reflexivity).
+    destruct (o_kind ob); cbn [fst]; try (apply good_reject; auto; fail).
+    + cbn [good]. repeat split; auto; try discriminate.
+      apply cmds_ok_app; [apply Hhc; exact HT1|]. cbn [cmds_ok targets]. rewrite N.eqb_refl. reflexivity.
+    + destruct (negb (session s =? 0)); [apply good_reject; auto|].
+      destruct sizes as [|n0 sz]; [apply good_reject; auto|].
+      pose proof (chunked_write_good (objs s) y ob (n0 :: sz) (targets s (OpWriteVL y lens (n0 :: sz)))
+                    (fail_targets (OpWriteVL y lens (n0 :: sz))) Ho Hob) as G.
+      destruct (chunked_write y ob (n0 :: sz)) as [[cc ok] upd]. cbn [fst good] in *.
+      destruct G as (G1 & G2 & G3 & G4 & G5); [cbn [targets]; rewrite N.eqb_refl; reflexivity|].
+      repeat split; auto.
+      * apply cmds_ok_app; [apply Hhc; exact HT1 | exact G1].
+      * intros F. apply cmds_ok_app; [apply Hhc; exact HT2 | apply G3; exact F].
+      * discriminate.
+      * intros F Hnil. apply app_eq_nil in Hnil. destruct Hnil as [_ Hnil]. apply G5; auto.
 Qed.
 
 End WithPatches.
